@@ -459,3 +459,66 @@ func blockIndexOf(in ssa.Instruction) int {
 	}
 	return -1
 }
+
+// RecvFrom matches channel receives (<-ch) whose channel path ends with suffix.
+func RecvFrom(suffix string) M {
+	return M{Desc: "<-…" + suffix, F: func(in ssa.Instruction) bool {
+		u, ok := in.(*ssa.UnOp)
+		if !ok || u.Op != token.ARROW {
+			return false
+		}
+		return pathHasSuffix(pathOf(u.X), suffix)
+	}}
+}
+
+// BuiltinCall matches calls of a builtin (close, panic, …) whose first argument
+// path ends with suffix.
+func BuiltinCall(name, suffix string) M {
+	return M{Desc: name + "(…" + suffix + ")", F: func(in ssa.Instruction) bool {
+		c, ok := in.(*ssa.Call)
+		if !ok {
+			return false
+		}
+		b, ok := c.Call.Value.(*ssa.Builtin)
+		if !ok || b.Name() != name {
+			return false
+		}
+		if suffix == "" {
+			return true
+		}
+		return len(c.Call.Args) > 0 && pathHasSuffix(pathOf(c.Call.Args[0]), suffix)
+	}}
+}
+
+// StoreThrough matches stores through the pointer held in field f (*x.f = v).
+func StoreThrough(f *types.Var) M {
+	return M{Desc: "store *(." + f.Name() + ")", F: func(in ssa.Instruction) bool {
+		st, ok := in.(*ssa.Store)
+		if !ok {
+			return false
+		}
+		u, ok := st.Addr.(*ssa.UnOp)
+		if !ok || u.Op != token.MUL {
+			return false
+		}
+		fa, ok := u.X.(*ssa.FieldAddr)
+		if !ok {
+			return false
+		}
+		return fieldVar(fa.X.Type(), fa.Field) == f
+	}}
+}
+
+// StorePath matches stores whose address path ends with suffix.
+func StorePath(suffix string) M {
+	return M{Desc: "store …" + suffix, F: func(in ssa.Instruction) bool {
+		st, ok := in.(*ssa.Store)
+		if !ok {
+			return false
+		}
+		return pathHasSuffix(pathOf(st.Addr), suffix)
+	}}
+}
+
+// Pred builds a matcher from a predicate.
+func Pred(desc string, f func(in ssa.Instruction) bool) M { return M{Desc: desc, F: f} }
